@@ -21,5 +21,21 @@ print('failing tests outside baseline:',newfail[:10])
 sys.exit(1 if missing else 0)
 PY
 rc=$?
+if [ $rc -ne 0 ]; then
+  echo "--- package-level failures / panics:"
+  python3 - /tmp/vf-baseline.$$.json <<'PY2'
+import json,sys
+out={}
+for l in open(sys.argv[1]):
+    try: d=json.loads(l)
+    except Exception: continue
+    if d.get('Action')=='output' and not d.get('Test'):
+        out.setdefault(d['Package'],[]).append(d['Output'])
+    if d.get('Action')=='fail' and not d.get('Test'):
+        print('FAIL', d['Package']); print(''.join(out.get(d['Package'],[]))[-3000:])
+PY2
+  grep -h "panic:\|fatal error" -A 12 /tmp/vf-baseline.$$.json | head -5
+  tail -5 /tmp/vf-baseline.$$.err
+fi
 rm -f /tmp/vf-baseline.$$.json /tmp/vf-baseline.$$.err
 exit $rc
